@@ -24,6 +24,7 @@ type simLogBatch struct {
 	Ctl   string  `json:"ctl"`   // "" | commit | abort   (control batch with one marker record)
 	Hdrs  int     `json:"hdrs"`  // headers per record (v2 only)
 	Lat   bool    `json:"lat"`   // LogAppendTime
+	Epoch int16   `json:"epoch"` // producer epoch of the batch (a marker written by the coordinator after a time-out carries epoch+1)
 }
 
 func (b *simLogBatch) first() int64 { return b.Offs[0] }
@@ -52,7 +53,7 @@ func (b *simLogBatch) encodeBytes() ([]byte, error) {
 	switch b.Fmt {
 	case "v2":
 		rb := &RecordBatch{Version: 2, FirstOffset: b.first(), LastOffsetDelta: int32(b.last() - b.first()),
-			FirstTimestamp: simRecTime(b.first()), MaxTimestamp: simRecTime(b.last()), ProducerID: b.Pid, ProducerEpoch: 0,
+			FirstTimestamp: simRecTime(b.first()), MaxTimestamp: simRecTime(b.last()), ProducerID: b.Pid, ProducerEpoch: b.Epoch,
 			FirstSequence: 0, IsTransactional: b.Txn, Codec: CompressionCodec(b.Codec), LogAppendTime: b.Lat}
 		if b.Pid < 0 {
 			rb.ProducerID, rb.ProducerEpoch, rb.FirstSequence = -1, -1, -1
